@@ -22,6 +22,7 @@ CONSTANTS Tables,     \* sequence of option tables; table = sequence of option r
           MaxArgs,    \* bound on the number of words after the program name (model bound only)
           Flags0,     \* initial content of the shared boolean word (set of bit numbers)
           Int0,       \* initial value of every integer target
+          Argvs(_),   \* the argument vectors Init chooses from, per table (ArgvsBounded, or a sampled set of longer ones)
           Emit(_)     \* observation hook, called once per finished behaviour
 
 VARIABLES tb,       \* index of the option table in Tables
@@ -372,9 +373,10 @@ ReadingIsFunction == Scanning => GuardCount(CurOpt) <= 1
 Next == ScanStep \/ OpPrePassEnd \/ OpMainPassEnd \/ OpCompactBegin \/ OpCompactStep \/ OpCompactEnd \/ OpExcluded
 
 ArgvsOver(T) == UNION { [1 .. n -> T] : n \in 0 .. MaxArgs }
+ArgvsBounded(t) == ArgvsOver(TokSets[t])                 \* every vector of at most MaxArgs words over the table's alphabet
 Init == /\ tb \in 1 .. Len(Tables)
         /\ st \in SUBSET {"PRE", "REM"}
-        /\ argv \in ArgvsOver(TokSets[tb])
+        /\ argv \in Argvs(tb)
         /\ phase = (IF "PRE" \in st THEN "pre" ELSE "main")
         /\ i = 1 /\ l = 0
         /\ flags = Flags0
